@@ -252,7 +252,10 @@ def format_chars(interp, st, fmt, args, kwargs):
                 raise Unsupported("format spec on str")
             ch = as_chars(arg)
             if ch is None:
-                raise Unsupported("format of a symbolic-length string")
+                # symbolic-length piece: the formatted text is an unknown string (messages only)
+                interp.assumptions.add("str.format with symbolic-length string arguments yields an unknown string")
+                yield st, VStr(z3.String(fresh_name('fmt')))
+                return
             yield from go(i + 1, st, acc + ch.codes, auto)
             return
         if isinstance(arg, VBool) and spec == '':
